@@ -352,7 +352,8 @@ def exec_stmt(env, mon, s, guarded):
     elif k == "fail_late":
         _, name, how = s
         a = env[name]
-        mon.see(a.data if isinstance(a, Tensor) else a, name)
+        if how != "int_const":   # (the int_const form builds its own integer operands and never hands `a` to MyGrad)
+            mon.see(a.data if isinstance(a, Tensor) else a, name)
         try:
             if how == "dtype":
                 mg.add(a, 1.0, dtype=np.complex64)
